@@ -445,6 +445,15 @@ SPECS += [
                         lambda n: ast.parse("source[cut + 1:]").body[0].value), ["R05.7"]),
 ]
 
+
+_is_sep_add = lambda n: isinstance(n, ast.BinOp) and isinstance(n.op, ast.Add) and isinstance(n.right, ast.Constant) and n.right.value in ("/", ".")
+SPECS += [
+    ("C09", "folder-contains-no-separator", "rope/base/resources.py", replace_expr_where("Folder.contains", _is_sep_add, lambda n: n.left), ["R09.8"]),
+    ("C09", "project-relative-no-separator", "rope/base/libutils.py", replace_expr_where("relative", _is_sep_add, lambda n: n.left), ["R09.8"]),
+    ("C07", "dotted-prefix-no-dot", "rope/refactor/importutils/actions.py",
+     replace_expr_where("AddingVisitor.visitNormalImport", _is_sep_add, lambda n: n.left, nth=1), ["R07.8"]),
+]
+
 SPECS = [s for s in SPECS if s[1] != "tab-to-four-spaces"]
 
 
